@@ -3,6 +3,7 @@
    Xml/RoundTripAttrs.v, Xml/RoundTripLexer.v, Xml/RoundTripElem.v, Xml/RoundTripFile.v.  Every statement is for every
    table set, name table, validator, float oracles and both modes; no hypothesis beyond the canonicity predicates.
 
+   Faithfulness to an independent reading of XML: C01_faithful (end of this file).
    The full property is RoundTripFile.C01_full (a Definition, NOT proved).  Proved: C01_roundtrip_partial — for every
    canonical root (RootCanon ver root: every node Canon) whose xsi:schemaLocation is the canonical text for ver,
    load (serialize_file ver sa root) returns root, no warning, file version ver.  Canon says exactly which trees
@@ -26,7 +27,8 @@ From AV Require Import Base.Bytes Base.Outcome Base.Utf8 Hash.HashModel Spec.Spe
   Xml.Lexer Xml.Parser Xml.Serializer Xml.LexerProofs Xml.Escape Xml.RoundTripValues Xml.RoundTripAttrs
   Xml.RoundTripLexer Xml.StrictValidDef Xml.ParserDepth Xml.RoundTripElem Xml.RoundTripFile Xml.TablesOk
   Xml.RoundTripCanonValues Xml.RoundTripCanon Xml.Utf8Closure Xml.RoundTripCanonFinal Xml.RoundTripCanonb Xml.RoundTripLexerComment Xml.ParserExamples Xml.RoundTripExamples
-  Xml.RoundTripReload Xml.RoundTripReloadExamples Xml.RoundTripSetVersion.
+  Xml.RoundTripReload Xml.RoundTripReloadExamples Xml.RoundTripSetVersion
+  Xml.Reading Xml.ReadingLexer Xml.ReadingInterp Xml.ReadingParser Xml.ReadingExamples.
 From AV Require Import Spec.SpecTypes.
 From AV Require Import Spec.SpecReal Hash.HashRealElement Hash.HashRealAttr Hash.HashRealEnum.
 Open Scope list_scope.
@@ -454,3 +456,63 @@ Theorem C01_rewritten_example :
   | None => False
   end.
 Proof. exact rewritten_real. Qed.
+
+(* ---------- faithfulness to an independent reading of XML (Xml/Reading.v, ReadingInterp.v, ReadingLexer.v, ReadingParser.v) ----------
+   Reads bs d : a declarative, parser-independent reading of the arxml subset of XML - bs is the rendering of the plain XML
+   tree d (elements with attributes and layout, character data runs, comments, processing instructions; prolog with the
+   XML declaration; misc after the root) and every node is lexically well formed; no lexer state, no fuel, no tables.
+   The grammar is XML's, with eight RELAXATIONS that the loader forces on any sound reading (each is accepted by strict
+   loading, on the model - C01_reading_relaxations - and on the implementation - findings/C08-wellformedness-leniencies.cases.txt):
+   R1 "--" inside comments, R2 any PI body without '>', R3 '<' inside attribute values, R4 repeated attribute names,
+   R5 misc before the XML declaration, R6 the declaration is read by position only, R7 any byte but '<' is character
+   data, R8 a dangling attribute (name, '=', quote, blanks) at the end of a tag is ignored.
+   InterpDoc d ver t : the AUTOSAR interpretation of d - types resolved top-down through the tables, values per
+   CharacterDataSpec (ValueOf: Pattern values are deliberately NOT entity-decoded - the recorded class - and blanks at
+   both ends are dropped except for preserve_whitespace strings), blank runs and PIs dropped, a comment attached to the
+   next element, comments without a following element dropped. *)
+(* [U] every call of the lexer that returns an event has consumed misc items and then exactly the bytes of one token of
+   the grammar (TokR); no hypothesis *)
+Theorem C01_lexer_reads :
+  forall (f : nat) (st : lstate) (line : N) (ev : event) (st' : lstate),
+  l_deferred st = None -> lex_next f st = Val (LOk line ev st') -> StepR st ev st'.
+Proof. exact lex_next_reads. Qed.
+
+(* [U] values: what strict value parsing returns is the value the raw text denotes *)
+Theorem C01_value_faithful :
+  forall (tab_en : nametab) (check_fn : N -> list N -> res bool) (float_parse : list N -> option N)
+         (input : list N) (spec : SpecTypes.cdspec) (st : pstate) (v : cdata) (st' : pstate),
+  parse_character_data true tab_en check_fn float_parse input spec st = Val (Ret v st') ->
+  ValueOf tab_en check_fn float_parse (p_version st) spec input v.
+Proof. exact pcd_value. Qed.
+
+(* [U] C01_faithful: a byte string that strict loading accepts (or lenient loading without a warning) has a reading, and
+   the returned tree is the AUTOSAR interpretation of that reading for the file version.  Every table set whose element
+   and attribute name tables hold clean names (boolean, true for the regenerated tables), every validator, float oracle *)
+Theorem C01_faithful :
+  forall (T : tables) (tab_el tab_at tab_en : nametab) (check_fn : N -> list N -> res bool) (float_parse : list N -> option N),
+  names_clean tab_el = true -> names_clean tab_at = true ->
+  forall (b : bool) (bs : list N) (t : etree) (st : pstate),
+  load b T tab_el tab_at tab_en check_fn float_parse bs = Val (Ret t st) -> p_warnings st = [] ->
+  exists d, Reads bs d /\ InterpDoc T tab_el tab_at tab_en check_fn float_parse d (p_version st) t.
+Proof. exact load_faithful_clean. Qed.
+
+(* [U over inputs, F tables] the real loader model; [F] non-vacuity: the rich document is loaded and so has a reading;
+   an explicit reading of the plain document (tree with layout) *)
+Theorem C01_real_faithful :
+  forall (bs : list N) (t : etree) (st : pstate), LOAD true bs = Val (Ret t st) ->
+  exists d, Reads bs d /\ InterpDoc RT tab_element tab_attr tab_enum accept_all no_float d (p_version st) t.
+Proof. exact real_load_faithful. Qed.
+
+Theorem C01_faithful_example :
+  exists t st d, LOAD true doc_rich = Val (Ret t st) /\ Reads doc_rich d /\
+    InterpDoc RT tab_element tab_attr tab_enum accept_all no_float d (p_version st) t.
+Proof. exact faithful_rich. Qed.
+
+Theorem C01_reads_example : Reads doc_ok d_ok.
+Proof. exact reads_doc_ok. Qed.
+
+(* [F] the relaxations R1..R8: each document is accepted by STRICT loading *)
+Theorem C01_reading_relaxations :
+  map (fun d => is_ret (LOAD true d)) [doc_R1; doc_R2; doc_R3; doc_R4; doc_R5; doc_R6; doc_R7; doc_R8] =
+  [true; true; true; true; true; true; true; true].
+Proof. exact relaxations_accepted. Qed.
